@@ -4,7 +4,7 @@ from hypothesis import strategies as st
 
 from vf.core import Obs
 from vf.lab import lab_spec
-from vf.prog import World, execute, flat_pairs, op_direct, op_distribute, op_misc, op_transfer, resolve, trough_indices, vs_mixed, vs_ok
+from vf.prog import ops_list, World, execute, flat_pairs, op_direct, op_distribute, op_misc, op_transfer, resolve, trough_indices, vs_mixed, vs_ok
 
 PID = "C16"
 RULE = (
@@ -55,7 +55,7 @@ def _case(draw, focus, tier="quick"):
         "M": draw(st.sampled_from([7, 50, 950, 33.3])),
         "auto_split": draw(st.sampled_from([True, True, False])),
         "diti": draw(st.sampled_from([False, False, True])),
-        "ops": draw(st.lists(st.one_of(fop, anyop), min_size=1, max_size=10 if tier == "quick" else 16)),
+        "ops": draw(ops_list(st.one_of(fop, anyop), 1, 10 if tier == "quick" else 16)),
     }
 
 
